@@ -8,7 +8,11 @@ import props, manifest_meta as mm
 checks = []
 for pid in sorted(props.PROPS):
     cfg = props.PROPS[pid]
-    meta = mm.CHECKS[pid]
+    meta = dict(mm.CHECKS[pid])
+    bc = cfg.get("bounded_checks", [])
+    if bc:
+        meta["text"] = meta["text"] + mm.BOUNDED_PREFIX + "; ".join(mm.BOUNDED[c] for c in bc) + "."
+        meta["technique"] = meta["technique"] + mm.BOUNDED_TECHNIQUE
     checks.append({
         "property_id": pid,
         "quick_cmd": f"./check {pid} --tier quick",
@@ -28,6 +32,8 @@ man = {
     "engines": [
         {"name": "verus-contracts", "path": "/verif/check", "serves_properties": sorted(props.PROPS),
          "kind_free_text": "contract-based deductive verification: real functions extracted mechanically from /repo/src on every run (tools/extract.py), contracts spliced from units/*.rs, discharged by Verus/z3; Kani/CBMC for leaf functions outside Verus' subset (labelled bounded or complete-by-enumeration)"},
+        {"name": "bounded-stand-in", "path": "/verif/bounded", "serves_properties": sorted(p for p in props.PROPS if props.PROPS[p].get("bounded_checks")),
+         "kind_free_text": "bounded stand-in / replay harness (Rust crate with a path dependency on /repo, rebuilt on every run): here-and-there evaluator over a window of the standard domain with exact handling of pinned and atom-guarded variables, reference semantics of mini-gringo rules, brute-force stable models, independent TFF reader; drives the library API and the anthem binary; labelled bounded, never counted as proved"},
     ],
     "checks": checks,
     "not_applicable": na,
